@@ -232,3 +232,97 @@ def distribution(recs):
                 m = min(len(x['rows']) for x in c['db']['tabs'])
                 frac['empty' if not t else 'everything' if len(t) >= m else 'proper subset'] += 1
     return {'families': fam, 'structures': nstruct, 'match_key_size': msize, 'requested_attributes': cols, 'outcomes': outs, 'intersection_size': frac}
+
+
+# ---------------------------------------------------------------------------------------------------------------------
+# "Per-structure queries and sub-selections return each structure's own atoms": get_all and db(**selection), with short
+# selection lists and with lists beyond the internal 950-value limit, default and user-chosen table names.  The oracle is the
+# property's own row-by-row filter of each structure's records (plain Python; a difference is reported with the inputs).
+# ---------------------------------------------------------------------------------------------------------------------
+
+def _big_parent(rng, n):
+    rows = []
+    for s in range(n):
+        rows.append([s + 1, NAMES[s % 4], '', RESN[(s // 4) % 3], 'AB'[(2 * s) // n], s // 4 + 1, '',
+                     rng.randrange(-400, 400) / 8, rng.randrange(-400, 400) / 8, rng.randrange(0, 800) / 8, 1.0, rng.randrange(0, 40) / 4, NAMES[s % 4][0], 0])
+    return rows
+
+
+def _holds(r, sel):
+    for k, v in sel.items():
+        neg = k.startswith('no_')
+        col = STD.index(k[3:] if neg else k)
+        hit = r[col] in (v if isinstance(v, list) else [v])
+        if hit == neg:
+            return False
+    return True
+
+
+def extra_checks(ctx):
+    rng = ctx.rng
+    res = []
+    fams = []
+    for k in range(ctx.scale(6, 40)):
+        p = parent(rng)
+        fams.append(('small', [child(rng, p) for _ in range(rng.choice([2, 3, 4]))]))
+    for k in range(ctx.scale(2, 8)):
+        n = rng.choice([1100, 1300, 2100])
+        p = _big_parent(rng, n)
+        tabs = []
+        for _ in range(rng.choice([2, 3])):
+            t = [list(r) for r in p if rng.random() > 0.1]
+            for r in t:
+                r[7] += rng.randrange(-8, 9) / 8
+            if rng.random() < 0.5:
+                t.reverse()
+            tabs.append(t)
+        fams.append(('big', tabs))
+    for fi, (size, tables) in enumerate(fams):
+        ns = len(tables)
+        names = None
+        if fi % 2 == 1:
+            names = rng.sample(['wildtype', 'mutant', 'apo', 'Zeta', 'b2', 'model_10'], ns)
+            if names == sorted(names):
+                names.reverse()
+        lines = [[B.atom_line(r) for r in t] for t in tables]
+        db = call(lambda: many2sql(lines) if names is None else many2sql(lines, tablenames=list(names)))
+        if is_err(db):
+            res.append({'name': f'per-structure family {fi}: construction', 'ok': False, 'case': {'error': db}, 'detail': ''})
+            continue
+        allserials = sorted({r[0] for t in tables for r in t})
+        sels = [{'chainID': 'A'}, {'name': ['CA', 'N'], 'no_resName': ['GLY']}, {'resSeq': rng.sample(range(1, 12), 4)}, {}]
+        if size == 'big':
+            long = rng.sample(allserials, rng.choice([951, 1000, len(allserials) - 7]))
+            sels = [{'serial': long}, {'no_serial': long}, {'serial': long, 'chainID': 'A'}, {'chainID': ['B']}]
+        for sel in sels:
+            col = rng.choice(['serial,x', 'x,y,z', 'name', 'serial'])
+            idx = [STD.index(cn) for cn in col.split(',')]
+            want = []
+            for t in tables:
+                rows = [[r[i] for i in idx] for r in t if _holds(r, sel)]
+                want.append([r[0] for r in rows] if len(idx) == 1 and rows else rows)
+            got = call(lambda: db.get_all(col, **{k_: (list(v) if isinstance(v, list) else v) for k_, v in sel.items()}))
+            okc = (not is_err(got)) and json.loads(json.dumps(got)) == json.loads(json.dumps(want))
+            if not okc:
+                res.append({'name': f'get_all family {fi} ({size})', 'ok': False,
+                            'case': {'tables': [[B.atom_line(r) for r in t][:40] for t in tables], 'tablenames': names, 'columns': col,
+                                     'selection': {k_: (v[:20] if isinstance(v, list) else v) for k_, v in sel.items()},
+                                     'got': short(got), 'want': short(want)},
+                            'detail': 'get_all must return, per structure in input order, that structure\'s own matching atoms'})
+            if sel:
+                sub = call(lambda: db(**{k_: (list(v) if isinstance(v, list) else v) for k_, v in sel.items()}))
+                if is_err(sub):
+                    oks, gotsub = all(not any(_holds(r, sel) for r in t) for t in tables), sub      # an empty structure cannot be built
+                else:
+                    sn = sub._get_table_names()
+                    gotsub = [[list(r)[:2] + [list(r)[7]] for r in sub.c.execute(f'select * from {n}').fetchall()] for n in sn]
+                    wantsub = [[[r[0], r[1], r[7]] for r in t if _holds(r, sel)] for t in tables]
+                    oks = json.loads(json.dumps(gotsub)) == json.loads(json.dumps(wantsub)) and sn == (names or ['ATOM'] + ['ATOM%d' % i for i in range(1, ns)])
+                if not oks:
+                    res.append({'name': f'sub-selection family {fi} ({size})', 'ok': False,
+                                'case': {'tables': [[B.atom_line(r) for r in t][:40] for t in tables], 'tablenames': names,
+                                         'selection': {k_: (v[:20] if isinstance(v, list) else v) for k_, v in sel.items()}, 'got': short(gotsub)},
+                                'detail': 'db(**selection) must hold, table by table under the same names, each structure\'s own matching atoms'})
+    res.append({'name': f'per-structure queries and sub-selections on {len(fams)} families (short lists; lists of 951+ values on 1100-2100 atom structures)',
+                'ok': True, 'case': None, 'detail': ''})
+    return res
